@@ -202,11 +202,42 @@ def g_sl(rng):
     return ops + ["sl free"]
 
 
+PG_SLACK = [1, 8, 15, 16, 17, 40, 200]
+
+
+def pg_escaped(rng, slack, quoted):
+    """an element whose unquoted value is `slack` bytes shorter than its text: the two quotes
+    (when quoted) plus one backslash per escaped character"""
+    nesc = slack - 2 if quoted else slack
+    if nesc < 0:
+        nesc = 0
+    val = bytearray()
+    txt = bytearray(b'"' if quoted else b"")
+    plain = [0x61, 0x62, 0x3a, 0x5f] + ([0x20, 0x2c, 0x7b, 0x7d] if quoted else [])
+    for _ in range(nesc):
+        if rng.chance(1, 3):                       # some unescaped characters in between
+            c = rng.choice(plain)
+            val.append(c)
+            txt.append(c)
+        c = rng.choice([0x22, 0x5c] + ([0x2c, 0x7d, 0x61] if True else []))
+        val.append(c)
+        txt += bytes([0x5c, c])
+    if not val:
+        val.append(0x61)
+        txt.append(0x61)
+    if quoted:
+        txt += b'"'
+    return bytes(txt), bytes(val)
+
+
 def pg_elem(rng):
     """one array element: (text, value) with value None for NULL"""
-    r = rng.below(10)
+    r = rng.below(14)
     if r < 2:
         return rng.choice([b"NULL", b"null", b"Null"]), None
+    if r >= 10:
+        # many escapes: quoted (e.g. a JSON document stored in a text[]) or bare with backslashes
+        return pg_escaped(rng, rng.choice(PG_SLACK), quoted=(r != 13))
     body = bytes(rng.choice([0x61, 0x62, 0x31, 0x5f]) for _ in range(1 + rng.below(4)))
     if r < 6:
         sp = b" " if rng.chance(1, 4) else b""
@@ -228,9 +259,13 @@ def g_pg(rng):
     ops = []
     for _ in range(1 + rng.below(4)):
         elems = [pg_elem(rng) for _ in range(rng.below(6))]
+        if rng.chance(1, 4):                      # the text[] holding one JSON document
+            elems.insert(rng.below(len(elems) + 1),
+                         (b'"{\\"a\\":\\"b\\",\\"c\\":\\"d\\",\\"e\\":\\"f\\"}"', b'{"a":"b","c":"d","e":"f"}'))
         text = b"{" + b",".join(e[0] for e in elems) + b"}"
-        if rng.chance(1, 5):
-            text = b"[1:%d]=" % max(1, len(elems)) + text
+        if rng.chance(1, 3):
+            lo = rng.choice([1, 0, -1, -5])
+            text = b"[%d:%d]=" % (lo, lo + max(1, len(elems)) - 1) + text
         vals = ",".join("N" if e[1] is None else vf.hexs(e[1]) for e in elems) if elems else "E"
         ops.append("pg parse %s %s" % (vf.hexs(text), vals))
     return ops
@@ -599,6 +634,7 @@ def run_modelled(ck, hcmd, dcmd, name, scripts, rng, ndouble):
     ck.count(len(allc))
     ck.cov["op_lines"] = ck.cov.get("op_lines", 0) + sum(len(c) + 1 for c in allc)
     suspects = []
+    flagged = []
     for i, (c, oc, om) in enumerate(zip(allc, outs_c, outs_m)):
         if i >= len(base) and oc and oc[-1].startswith("req=") and "fired=0" not in oc[-1]:
             st["fired"] += 1
@@ -606,13 +642,17 @@ def run_modelled(ck, hcmd, dcmd, name, scripts, rng, ndouble):
                 st["reported"] += 1
             elif any(l.startswith("A:") for l in oc):
                 st["absorbed"] += 1
-        if oc != om or any(True for _ in monitor(["#case"] + c, ["#case"] + oc)):
-            suspects.append(c)
+        if any(True for _ in monitor(["#case"] + c, ["#case"] + oc)):
+            flagged.append(c)            # the property monitor objects (crash, leak, not atomic ..)
+        elif oc != om:
+            suspects.append(c)           # implementation and model differ
     nf = 0
+    # monitor findings first: a leak or crash is the more telling replay than a count mismatch
+    suspects = flagged[:4] + suspects[:4]
     if suspects:
         # standard handling (re-run, shrink, classify observable/internal, write replay)
         ev = ck.cov["evaluations"]
-        nf = ck.compare_cases(hcmd, dcmd, suspects[:6], label=name, monitor=monitor)
+        nf = ck.compare_cases(hcmd, dcmd, suspects, label=name, monitor=monitor, max_failures=8)
         ck.cov["evaluations"] = ev
     return nf, cases
 
